@@ -24,6 +24,7 @@ import (
 	"sort"
 	"strconv"
 	"strings"
+	"sync"
 	"time"
 
 	"github.com/lugu/qiloop/bus"
@@ -325,15 +326,34 @@ func (d *refDir) key() string {
 
 // ---------- running one operation on the real object ----------
 
-type sigRecorder struct{ evs []dEvent }
+// sigRecorder is the harness-owned ServiceDirectorySignalHelper.  It behaves like
+// signalHandler.UpdateSignal with one healthy subscriber (who records every event) and,
+// while broken is set, one subscriber whose connection gives a write error: the event is
+// still delivered to the healthy one and the helper returns that error.
+type sigRecorder struct {
+	mu     sync.Mutex
+	evs    []dEvent
+	broken bool
+	failed int
+}
 
-func (s *sigRecorder) SignalServiceAdded(id uint32, name string) error {
-	s.evs = append(s.evs, dEvent{true, id, name})
+var errBrokenSubscriber = fmt.Errorf("write event: broken pipe")
+
+func (s *sigRecorder) emit(e dEvent) error {
+	s.mu.Lock()
+	defer s.mu.Unlock()
+	s.evs = append(s.evs, e)
+	if s.broken {
+		s.failed++
+		return errBrokenSubscriber
+	}
 	return nil
 }
+func (s *sigRecorder) SignalServiceAdded(id uint32, name string) error {
+	return s.emit(dEvent{true, id, name})
+}
 func (s *sigRecorder) SignalServiceRemoved(id uint32, name string) error {
-	s.evs = append(s.evs, dEvent{false, id, name})
-	return nil
+	return s.emit(dEvent{false, id, name})
 }
 
 const seqMachine = "M"
@@ -356,9 +376,18 @@ func newSeqDir(last0 uint32) *seqDir {
 	return s
 }
 
-// apply runs o; viaNS asks for the Namespace adapter where it offers the operation.
-func (s *seqDir) apply(o dOp, viaNS bool) (dRes, []dEvent) {
+// apply runs o; viaNS asks for the Namespace adapter where it offers the operation; with
+// broken set, the signal helper reports a failing subscriber for every event of this call.
+func (s *seqDir) apply(o dOp, viaNS bool, broken bool) (dRes, []dEvent) {
 	s.sig.evs = nil
+	s.sig.broken = broken
+	r := applyOp(s.impl, s.ns, o, viaNS)
+	s.sig.broken = false
+	return r, append([]dEvent{}, s.sig.evs...)
+}
+
+// applyOp: one operation on the implementation object, directly or through the Namespace adapter
+func applyOp(impl directory.ServiceDirectoryImplementor, ns bus.Namespace, o dOp, viaNS bool) dRes {
 	var r dRes
 	cls := func(err error) dRes {
 		if err != nil {
@@ -372,9 +401,9 @@ func (s *seqDir) apply(o dOp, viaNS bool) (dRes, []dEvent) {
 		var err error
 		if viaNS {
 			// directoryNamespace.Reserve builds the info itself (o.Info is its normalised form)
-			id, err = s.ns.Reserve(o.Info.Name)
+			id, err = ns.Reserve(o.Info.Name)
 		} else {
-			id, err = s.impl.RegisterService(fromInfo(o.Info))
+			id, err = impl.RegisterService(fromInfo(o.Info))
 		}
 		if err != nil {
 			r = dRes{Kind: rErr}
@@ -383,27 +412,27 @@ func (s *seqDir) apply(o dOp, viaNS bool) (dRes, []dEvent) {
 		}
 	case opUnregister:
 		if viaNS {
-			r = cls(s.ns.Remove(o.ID))
+			r = cls(ns.Remove(o.ID))
 		} else {
-			r = cls(s.impl.UnregisterService(o.ID))
+			r = cls(impl.UnregisterService(o.ID))
 		}
 	case opReady:
 		if viaNS {
-			r = cls(s.ns.Enable(o.ID))
+			r = cls(ns.Enable(o.ID))
 		} else {
-			r = cls(s.impl.ServiceReady(o.ID))
+			r = cls(impl.ServiceReady(o.ID))
 		}
 	case opUpdate:
-		r = cls(s.impl.UpdateServiceInfo(fromInfo(o.Info)))
+		r = cls(impl.UpdateServiceInfo(fromInfo(o.Info)))
 	case opService:
-		i, err := s.impl.Service(o.Name)
+		i, err := impl.Service(o.Name)
 		if err != nil {
 			r = dRes{Kind: rErr}
 		} else {
 			r = dRes{Kind: rInfo, Info: toInfo(i)}
 		}
 	case opServices:
-		l, err := s.impl.Services()
+		l, err := impl.Services()
 		if err != nil {
 			r = dRes{Kind: rErr}
 		} else {
@@ -413,21 +442,23 @@ func (s *seqDir) apply(o dOp, viaNS bool) (dRes, []dEvent) {
 			}
 		}
 	case opMachine:
-		m, err := s.impl.MachineId()
+		m, err := impl.MachineId()
 		if err != nil || m == "" {
 			r = dRes{Kind: rErr}
 		} else {
 			r = dRes{Kind: rMachine}
 		}
 	case opResolve:
-		id, err := s.ns.Resolve(o.Name)
+		id, err := ns.Resolve(o.Name)
 		if err != nil {
 			r = dRes{Kind: rErr}
 		} else {
 			r = dRes{Kind: rID, ID: id}
 		}
+	default:
+		r = dRes{Kind: rErr}
 	}
-	return r, append([]dEvent{}, s.sig.evs...)
+	return r
 }
 
 func (s *seqDir) state() (st, sv []dInfo, last uint32) {
@@ -444,6 +475,10 @@ func (s *seqDir) state() (st, sv []dInfo, last uint32) {
 // ---------- sequential generator ----------
 
 var seqNames = []string{"a", "b", "c"}
+
+// names that differ from a base name only by blanks or case: different names for the registry
+var seqNameVariants = []string{"a ", " a", "A", "b ", "B"}
+var seqNamesAll = append(append([]string{}, seqNames...), seqNameVariants...)
 
 func genInfo(rng *hx.Rng, name string, id uint32) dInfo {
 	i := dInfo{Name: name, ID: id, Machine: "m", Pid: uint32(1 + rng.Intn(3)), Endpoints: []string{"e"}}
@@ -481,10 +516,11 @@ func breakInfo(rng *hx.Rng, i dInfo) (dInfo, string) {
 }
 
 type seqStep struct {
-	op    dOp
-	viaNS bool
-	res   dRes
-	evs   []dEvent
+	op     dOp
+	viaNS  bool
+	broken bool // one subscriber's connection is broken during this call: the signal helper delivers to the healthy one and returns a write error
+	res    dRes
+	evs    []dEvent
 }
 
 func genSeqOp(rng *hx.Rng, known []uint32, names map[uint32]string, visible, stagedSet map[uint32]bool, last uint32) (dOp, bool, string) {
@@ -517,6 +553,9 @@ func genSeqOp(rng *hx.Rng, known []uint32, names map[uint32]string, visible, sta
 		}
 	}
 	name := seqNames[rng.Intn(len(seqNames))]
+	if rng.Chance(0.12) {
+		name = seqNameVariants[rng.Intn(len(seqNameVariants))]
+	}
 	k := rng.Intn(100)
 	// steer towards operations that can succeed in the current state
 	if len(stg) > 0 && k < 38 && rng.Chance(0.4) {
@@ -591,11 +630,14 @@ type seqJudge struct {
 	names    map[uint32]string // name registered under an id
 	visible  map[uint32]bool
 	staged   map[uint32]bool
+	wasReady map[uint32]bool     // unregistered after having been ready
+	emitted  map[uint32][]dEvent // every signal handed to the helper so far, per id
 	failures [][2]string
 }
 
 func newSeqJudge(last0 uint32) *seqJudge {
-	return &seqJudge{lastReg: int64(last0), names: map[uint32]string{}, visible: map[uint32]bool{}, staged: map[uint32]bool{}}
+	return &seqJudge{lastReg: int64(last0), names: map[uint32]string{}, visible: map[uint32]bool{}, staged: map[uint32]bool{},
+		wasReady: map[uint32]bool{}, emitted: map[uint32][]dEvent{}}
 }
 
 func (j *seqJudge) fail(clause, detail string) {
@@ -626,12 +668,43 @@ func (j *seqJudge) step(s *seqDir, st seqStep, before map[uint32]string) {
 	if o.Kind == opUnregister && r.Kind == rOk {
 		if j.visible[o.ID] {
 			want = []dEvent{{false, o.ID, j.names[o.ID]}}
+			j.wasReady[o.ID] = true
 		}
 		delete(j.visible, o.ID)
 		delete(j.staged, o.ID)
 	}
 	if fmt.Sprint(want) != fmt.Sprint(st.evs) {
-		j.fail("signals", fmt.Sprintf("%v -> %v emitted %s, the transition calls for %s", o, r, evTerms(st.evs), evTerms(want)))
+		j.fail("signals", fmt.Sprintf("%v%s -> %v emitted %s, the transition calls for %s", o, brokenMark(st.broken), r, evTerms(st.evs), evTerms(want)))
+	}
+	// (5') over the whole sequence: the subscriber has seen, for every id, exactly the signals
+	// of the transitions of its life so far (C15_events_exact): nothing while staging or when
+	// unregistered from staging, added while ready, added then removed once gone
+	for _, e := range st.evs {
+		j.emitted[e.ID] = append(j.emitted[e.ID], e)
+	}
+	touched := map[uint32]bool{o.ID: true}
+	for _, e := range st.evs {
+		touched[e.ID] = true
+	}
+	for id := range touched {
+		var life []dEvent
+		state := "unknown"
+		if n, ok := j.names[id]; ok {
+			switch {
+			case j.visible[id]:
+				life, state = []dEvent{{true, id, n}}, "ready"
+			case j.wasReady[id]:
+				life, state = []dEvent{{true, id, n}, {false, id, n}}, "unregistered after ready"
+			case j.staged[id]:
+				state = "staging"
+			default:
+				state = "unregistered while staging"
+			}
+		}
+		if fmt.Sprint(life) != fmt.Sprint(j.emitted[id]) && (o.Kind == opReady || o.Kind == opUnregister || len(st.evs) > 0) {
+			j.fail("events-exact", fmt.Sprintf("after %v%s -> %v the subscriber has received %s for id %d, whose life so far (%s) calls for %s",
+				o, brokenMark(st.broken), r, evTerms(j.emitted[id]), id, state, evTerms(life)))
+		}
 	}
 	// state after the step
 	stg, svc, _ := s.state()
@@ -658,7 +731,7 @@ func (j *seqJudge) step(s *seqDir, st seqStep, before map[uint32]string) {
 	if fmt.Sprint(vis) != fmt.Sprint(listed) {
 		j.fail("visibility", fmt.Sprintf("services lists ids %v, ready-and-not-unregistered ids are %v", listed, vis))
 	}
-	for _, n := range seqNames {
+	for _, n := range seqNamesAll {
 		i, err := s.impl.Service(n)
 		found := err == nil
 		want := false
@@ -688,6 +761,13 @@ func (j *seqJudge) step(s *seqDir, st seqStep, before map[uint32]string) {
 	}
 }
 
+func brokenMark(b bool) string {
+	if b {
+		return " [one subscriber's connection broken: the signal helper returns a write error]"
+	}
+	return ""
+}
+
 func idNames(stg, svc []dInfo) map[uint32]string {
 	m := map[uint32]string{}
 	for _, i := range stg {
@@ -708,7 +788,9 @@ func infoTerms(l []dInfo) string {
 }
 
 // runSeq runs one sequence (ops given, or generated when ops == nil) and returns the case term
-func runSeq(rng *hx.Rng, last0 uint32, length int, fixed []seqStep) (steps []seqStep, kinds []string, j *seqJudge, term string, wrapped bool) {
+// faultMode (generated sequences): 0 = the signal helper never fails, 1 = it reports a broken
+// subscriber on every emission, 2 = on the emissions of a random half of the calls
+func runSeq(rng *hx.Rng, last0 uint32, length int, fixed []seqStep, faultMode int) (steps []seqStep, kinds []string, j *seqJudge, term string, wrapped bool) {
 	s := newSeqDir(last0)
 	j = newSeqJudge(last0)
 	var known []uint32
@@ -719,17 +801,23 @@ func runSeq(rng *hx.Rng, last0 uint32, length int, fixed []seqStep) (steps []seq
 	for k := 0; k < n; k++ {
 		_, _, last := s.vd.State()
 		var o dOp
-		var via bool
+		var via, broken bool
 		kind := "fixed"
 		if fixed != nil {
-			o, via = fixed[k].op, fixed[k].viaNS
+			o, via, broken = fixed[k].op, fixed[k].viaNS, fixed[k].broken
 		} else {
 			o, via, kind = genSeqOp(rng, known, j.names, j.visible, j.staged, last)
+			switch faultMode {
+			case 1:
+				broken = true
+			case 2:
+				broken = rng.Chance(0.5)
+			}
 		}
 		stg0, svc0, _ := s.state()
 		before := idNames(stg0, svc0)
-		r, evs := s.apply(o, via)
-		st := seqStep{o, via, r, evs}
+		r, evs := s.apply(o, via, broken)
+		st := seqStep{o, via, broken, r, evs}
 		if o.Kind == opRegister && r.Kind == rID {
 			known = append(known, r.ID)
 			if last == 0xffffffff {
@@ -757,6 +845,9 @@ func seqText(steps []seqStep) string {
 			b.WriteString(" ; ")
 		}
 		fmt.Fprintf(&b, "%v -> %v", st.op, st.res)
+		if st.broken && (len(st.evs) > 0 || st.op.Kind == opReady || st.op.Kind == opUnregister) {
+			b.WriteString(" [helper error]")
+		}
 		if len(st.evs) > 0 {
 			b.WriteString(" " + evTerms(st.evs))
 		}
@@ -780,9 +871,10 @@ func seqNontrivial(steps []seqStep) bool {
 // ---------- main driver ----------
 
 func runC15(res *hx.Result, rng *hx.Rng, tier string, outdir string) {
-	res.Rule = "sequential: 1..25 operations over names {a,b,c}, ids drawn from those handed out / small / boundary values, " +
-		"valid and separately broken infos, direct and Namespace-adapter calls, initial counter 0 or next to 2^32; " +
-		"concurrent: 3 remote clients x 3..4 calls + 1..2 local goroutines (NewService/Terminate/Resolve) per history; " +
+	res.Rule = "sequential: 1..25 operations over names {a,b,c} and, one time in eight, variants of them by blanks or case, ids drawn from those handed out / small / boundary values, " +
+		"valid and separately broken infos, direct and Namespace-adapter calls, initial counter 0 or next to 2^32, the signal helper reporting a broken subscriber never / always / on half of the calls; " +
+		"concurrent: 3 remote clients x 3..4 calls + 1..2 local goroutines (NewService/Terminate/Resolve) per history, in one of three a second subscriber whose connection gives a write error (every event / the first one or two) and callers that retry; " +
+		"direct: 2..6 goroutines x 2..4 calls on the implementation object and its Namespace adapter, released together, one fresh directory per round (all rounds judged by the oracles, an evenly spaced sample also evaluated in Coq); " +
 		"non-trivial = a ready->unregister transition occurs, or >= 2 calls of different threads overlap; distinct by sha256 of the case text"
 	nSeq, nHist := 400, 24
 	if tier == "thorough" {
@@ -798,7 +890,7 @@ func runC15(res *hx.Result, rng *hx.Rng, tier string, outdir string) {
 	wrapOn := false
 	{
 		s := newSeqDir(0xffffffff)
-		r, _ := s.apply(dOp{Kind: opRegister, Info: dInfo{Name: "a", Machine: "m", Pid: 1, Endpoints: []string{"e"}}}, false)
+		r, _ := s.apply(dOp{Kind: opRegister, Info: dInfo{Name: "a", Machine: "m", Pid: 1, Endpoints: []string{"e"}}}, false, false)
 		wrapOn = r.Kind == rID
 		res.Switch("id_wrap", wrapOn, fmt.Sprintf("lastID = 4294967295 (set through the verif hook; reached by 2^32-1 registrations), registerService(valid info \"a\") -> %v: "+
 			"the uint32 counter wrapped, identifiers are handed out again from 0", r))
@@ -897,8 +989,21 @@ func runC15(res *hx.Result, rng *hx.Rng, tier string, outdir string) {
 		} else if rng.Chance(0.05) {
 			last0 = uint32(rng.Intn(1000))
 		}
-		steps, kinds, j, term, wrapped := runSeq(rng, last0, 3+rng.Intn(23), nil)
+		faultMode := 0
+		switch x := rng.Intn(100); {
+		case x < 15:
+			faultMode = 1
+		case x < 45:
+			faultMode = 2
+		}
+		steps, kinds, j, term, wrapped := runSeq(rng, last0, 3+rng.Intn(23), nil, faultMode)
 		reportSeq(steps, j, last0, wrapped)
+		res.Dist(fmt.Sprintf("seq-helper-fault-mode:%d", faultMode))
+		for _, st := range steps {
+			if st.broken && len(st.evs) > 0 {
+				res.Dist("signal-emitted-with-a-broken-subscriber")
+			}
+		}
 		for _, k := range kinds {
 			res.Dist("op:" + k)
 		}
@@ -919,6 +1024,7 @@ func runC15(res *hx.Result, rng *hx.Rng, tier string, outdir string) {
 
 	// ---- concurrent histories (child process) ----
 	runHistories(res, cf, rng, outdir, nHist, unsync)
+	runDirect(res, cf, rng, outdir, tier, unsync)
 	cf.Flush()
 	if tier == "thorough" {
 		raceDetectorRun(res, outdir, repo, unsync)
@@ -1007,7 +1113,7 @@ func tail(s string, n int) string {
 // same clause still fails on the implementation
 func shrinkSeq(last0 uint32, steps []seqStep, clause string) ([]seqStep, string) {
 	fails := func(ss []seqStep) ([]seqStep, string) {
-		st, _, j, _, _ := runSeq(nil, last0, 0, ss)
+		st, _, j, _, _ := runSeq(nil, last0, 0, ss, 0)
 		for _, f := range j.failures {
 			if f[0] == clause {
 				return st, f[1]
@@ -1053,10 +1159,11 @@ func exhaustiveSeq(res *hx.Result, cf *hx.Cases, rng *hx.Rng, report func([]seqS
 	alpha = append(alpha, dOp{Kind: opServices})
 	maxLen := 5
 	count := 0
+	var brokenAlpha []seqStep
 	var rec func(prefix []seqStep)
 	rec = func(prefix []seqStep) {
 		if len(prefix) > 0 {
-			steps, _, j, term, wrapped := runSeq(rng, 0, 0, prefix)
+			steps, _, j, term, wrapped := runSeq(rng, 0, 0, prefix, 0)
 			report(steps, j, 0, wrapped)
 			count++
 			res.Count(term, seqNontrivial(steps))
@@ -1072,8 +1179,39 @@ func exhaustiveSeq(res *hx.Result, cf *hx.Cases, rng *hx.Rng, report func([]seqS
 		}
 	}
 	rec(nil)
+	// the same with a signal helper that may report a broken subscriber: every sequence up to
+	// length 4 where each serviceReady / unregisterService comes in both flavours
+	n0 := len(alpha)
+	for _, o := range alpha[:n0] {
+		if o.Kind == opReady || o.Kind == opUnregister {
+			brokenAlpha = append(brokenAlpha, seqStep{op: o, broken: true})
+		}
+	}
+	maxLen = 4
+	var rec2 func(prefix []seqStep, any bool)
+	rec2 = func(prefix []seqStep, any bool) {
+		if len(prefix) > 0 && any {
+			steps, _, j, term, wrapped := runSeq(rng, 0, 0, prefix, 0)
+			report(steps, j, 0, wrapped)
+			count++
+			res.Count(term, seqNontrivial(steps))
+			if hashMod(term, 97) == 0 {
+				cf.Add("scases", term, "exhaustive (failing helper): "+clip(seqText(steps), 600))
+			}
+		}
+		if len(prefix) == maxLen {
+			return
+		}
+		for _, o := range alpha {
+			rec2(append(append([]seqStep{}, prefix...), seqStep{op: o}), any)
+		}
+		for _, st := range brokenAlpha {
+			rec2(append(append([]seqStep{}, prefix...), st), true)
+		}
+	}
+	rec2(nil, false)
 	res.Exhaustive = true
-	res.Notes = append(res.Notes, fmt.Sprintf("exhaustive: all %d sequences of length <= %d over an alphabet of %d operations (2 names x 3 ids) judged by the property oracles", count, maxLen, len(alpha)))
+	res.Notes = append(res.Notes, fmt.Sprintf("exhaustive: all %d sequences of length <= 5 over an alphabet of %d operations (2 names x 3 ids), and of length <= 4 with at least one serviceReady / unregisterService during which the signal helper reports a broken subscriber, judged by the property oracles", count, len(alpha)))
 }
 
 func hashMod(s string, m uint32) uint32 {
@@ -1129,9 +1267,10 @@ type hEvent struct {
 	Ev dEvent `json:"ev"`
 }
 type hist struct {
-	Ops    []hOp    `json:"ops"`
-	Events []dEvent `json:"events"` // in the order the subscriber's connection delivered them
-	Note   string   `json:"note"`
+	Ops    []hOp       `json:"ops"`
+	Events []dEvent    `json:"events"` // in the order the subscriber's connection delivered them
+	Note   string      `json:"note"`
+	Held   []heldEntry `json:"held,omitempty"` // the registry's records when every call had returned
 }
 
 func (h hOp) term() string {
@@ -1300,6 +1439,60 @@ func runHistories(res *hx.Result, cf *hx.Cases, rng *hx.Rng, outdir string, nHis
 	}
 }
 
+// runDirect: goroutines calling the implementation object at the same time (c15_direct.go)
+func runDirect(res *hx.Result, cf *hx.Cases, rng *hx.Rng, outdir, tier string, unsync bool) {
+	rounds, samples, maxMs := 12000, 16, 4000
+	if tier == "thorough" {
+		rounds, samples, maxMs = 1500000, 200, 240000
+	}
+	seed := rng.U64()
+	out, err := runChild("C15-child-direct", outdir, map[string]string{
+		"C15_DIRECT_N": strconv.Itoa(rounds), "C15_DIRECT_SAMPLES": strconv.Itoa(samples),
+		"C15_DIRECT_MAXMS": strconv.Itoa(maxMs), "C15_DIRECT_SEED": strconv.FormatUint(seed, 10)},
+		time.Duration(maxMs)*time.Millisecond+30*time.Second)
+	ls := readDirect(filepath.Join(outdir, "child-C15-child-direct", "direct.jsonl"))
+	gotStats := false
+	for _, l := range ls {
+		switch l.Kind {
+		case "stats":
+			gotStats = true
+			res.Notes = append(res.Notes, fmt.Sprintf("direct concurrent rounds: %d (GOMAXPROCS %d, %d ms): %d with calls of different goroutines overlapping, %d with two successful registrations overlapping, %d with a failing signal helper, shapes %v",
+				l.Rounds, l.Procs, l.Millis, l.Overlapping, l.RegOverlap, l.Broken, l.Shapes))
+			res.Distribution["direct-rounds"] += l.Rounds
+			res.Distribution["direct-rounds-overlapping"] += l.Overlapping
+			res.Distribution["direct-rounds-registrations-overlapping"] += l.RegOverlap
+			if l.Rounds > 1000 && l.RegOverlap == 0 {
+				res.Notes = append(res.Notes, "direct concurrent rounds: no two registrations ever overlapped (single CPU?): the id oracle was not exercised concurrently")
+			}
+		case "hang":
+			d := l.Why + "; calls: " + histText(l.Hist)
+			if unsync {
+				res.FailKnown("hang", d, "unsync_local")
+			} else {
+				res.Fail("hang", d)
+			}
+		case "fail", "sample":
+			res.Dist("direct-" + l.Kind + ":" + l.Shape)
+			judgeHist(res, cf, l.Hist, unsync)
+		}
+	}
+	if err != nil || !gotStats {
+		line := ""
+		for _, l := range strings.Split(out, "\n") {
+			if strings.HasPrefix(l, "fatal error:") || strings.HasPrefix(l, "panic:") {
+				line = l
+				break
+			}
+		}
+		d := fmt.Sprintf("the process died while goroutines called the directory object concurrently (seed %d): %s %s", seed, line, tail(out, 200))
+		if line != "" && unsync && strings.Contains(line, "concurrent map") {
+			res.FailKnown("crash", d, "unsync_local")
+		} else {
+			res.Fail("crash", d)
+		}
+	}
+}
+
 func readHists(path string) []hist {
 	b, err := os.ReadFile(path)
 	if err != nil {
@@ -1329,7 +1522,7 @@ func judgeHist(res *hx.Result, cf *hx.Cases, h hist, unsync bool) {
 		if o.Ret == 0 {
 			pendingN++
 		}
-		if o.Via == "local" {
+		if o.Via == "local" || o.Via == "direct" {
 			for _, p := range h.Ops {
 				if p.Tid != o.Tid && (o.Ret == 0 || p.Inv < o.Ret) && (p.Ret == 0 || o.Inv < p.Ret) {
 					localOverlap = true
@@ -1354,6 +1547,15 @@ func judgeHist(res *hx.Result, cf *hx.Cases, h hist, unsync bool) {
 		known = "unsync_local" // a local call ran unsynchronised beside another call: exactly the finding's trigger
 	}
 	bad := false
+	if msg := idOracle(h); msg != "" {
+		bad = true
+		d := msg + "; history: " + text
+		if known != "" {
+			res.FailKnown("ids-distinct-concurrent", d, known)
+		} else {
+			res.Fail("ids-distinct-concurrent", d)
+		}
+	}
 	if !linSearch(h.Ops) {
 		bad = true
 		d := "no sequential order of the registry explains this history (real-time order respected): " + text
@@ -1366,13 +1568,17 @@ func judgeHist(res *hx.Result, cf *hx.Cases, h hist, unsync bool) {
 	if msg := signalOracle(h); msg != "" {
 		bad = true
 		d := msg + "; history: " + text
+		if h.Note != "" {
+			d += " (" + h.Note + ")"
+		}
 		if known != "" {
 			res.FailKnown("signals-concurrent", d, known)
 		} else {
 			res.Fail("signals-concurrent", d)
 		}
 	}
-	if !(bad && known != "") {
+	if !(bad && known != "") && !(bad && len(h.Ops) > 14) {
+		// (a long failing history is reported by the oracles above; lin_check has no memo table)
 		cf.Add("hcases", term, clip(text, 1500))
 	}
 }
